@@ -754,12 +754,16 @@ Proof.
     split; [lia|]. split; [lia|].
     cbn [eval_post]. exists E', stL', F'. split; [exact Hok | exact Hden].
   - (* ECall *)
-    destruct x; try discriminate Hfrag.
+    assert (Hother : (forall fsp, x <> ERead pv fsp) ->
+              exists b l', cshape u l code b l' c c' /\ c <= v /\ v < c' /\ eval_post ctx sc e F c c' E stL b l' v r st')
+      by (intros Hnp; apply (IHcall (S g) (S k) x args sp ctx c code v c' e st r st' sc l E stL F Hnp Hev Hlow Hfrag Hu Hctx Hrel Hint)).
+    destruct x; try (apply Hother; intros fsp H; discriminate H). clear Hother.
     assert (Hfrag0 : frag_expr pv sv bound fl (S k) sc (Resolved.ECall (ERead var sp0) args sp) = true) by exact Hfrag.
     pose proof Hfrag0 as Hfrag'. rewrite frag_expr_call in Hfrag'. clear Hfrag. rename Hfrag' into Hfrag.
     destruct (N.eqb_spec var pv) as [->|Hnpv].
     2: { (* f(a1, ..., an): SimEcall *)
-      apply (IHcall (S g) (S k) var sp0 args sp ctx c code v c' e st r st' sc l E stL F Hnpv Hev Hlow Hfrag0 Hu Hctx Hrel Hint). }
+      apply (IHcall (S g) (S k) (ERead var sp0) args sp ctx c code v c' e st r st' sc l E stL F
+               ltac:(intros fsp H; inversion H; contradiction) Hev Hlow Hfrag0 Hu Hctx Hrel Hint). }
     (* print(a) *)
     destruct args as [|a [|? ?]]; try discriminate Hfrag.
     apply andb_prop in Hfrag as [Hfrag Hfr].
